@@ -6,7 +6,7 @@ import PrologVerif.Proofs.ArithFloat
 import PrologVerif.Proofs.ArithEval
 namespace PrologVerif.ArithProofs
 open PrologVerif.Arith PrologVerif.Generated.Arith
-open PrologVerif.Spec.ExactArith (Outcome inRange checked)
+open PrologVerif.Spec.ExactArith (Outcome inRange checked pow powFast)
 
 variable {F : Type} [FloatOps F]
 
@@ -100,5 +100,41 @@ theorem eval_errors (v : Nat) (a f : String) (t u w : Term) (rest : Args) :
   · intro h; simp [Eval.eval, h]
   · intro h; simp [Eval.eval, h]
   · simp [Eval.eval, Args.length]
+
+/-! ### the executable form of `^` used by the oracle -/
+
+omit [FloatOps F] in
+theorem pow_big_not_inRange (x : Int) (n : Nat) (hx : 2 ≤ x.natAbs) (hn : 64 ≤ n) : ¬ inRange (x ^ n) := by
+  rw [inRange_iff]
+  have h1 : (x ^ n).natAbs = x.natAbs ^ n := Int.natAbs_pow x n
+  have h2 : 2 ^ 64 ≤ x.natAbs ^ n :=
+    Nat.le_trans (Nat.pow_le_pow_right (by decide) hn) (Nat.pow_le_pow_left hx n)
+  have h3 : (2 : Nat) ^ 64 = 18446744073709551616 := by decide
+  omega
+
+omit [FloatOps F] in
+theorem powFast_eq (x y : Int) : powFast x y = pow x y := by
+  unfold powFast
+  split
+  · rfl
+  rename_i hy
+  have hy0 : 0 ≤ y := by omega
+  unfold pow
+  rw [if_pos hy0]
+  have hn : 64 ≤ y.toNat := by omega
+  split
+  · rename_i h; subst h
+    rw [Int.zero_pow (by omega), checked_pos (by decide)]
+  split
+  · rename_i h; subst h
+    rw [Int.one_pow, checked_pos (by decide)]
+  split
+  · rename_i h; subst h
+    rw [neg_one_pow]
+    by_cases hp : y % 2 = 0
+    · rw [if_pos hp, if_pos (by omega), checked_pos (by decide)]
+    · rw [if_neg hp, if_neg (by omega), checked_pos (by decide)]
+  · rw [checked_neg (pow_big_not_inRange x _ (by omega) hn)]
+
 
 end PrologVerif.ArithProofs
